@@ -277,3 +277,70 @@ Fixpoint names_in (es ats : list str) (n : node) : bool :=
   | El name a kids =>
       mem_str name es && forallb (fun kv => mem_str (fst kv) ats) a && forallb (names_in es ats) kids
   end.
+
+(* ====================================================================== *)
+(*  Specification side                                                    *)
+(* ====================================================================== *)
+
+(* element and attribute names are ToHtml's constants *)
+Definition hnames : node -> bool := names_in html_elems html_attrs.
+
+(* if maxListSize < 1 { maxListSize = 1 } *)
+Definition eff_max (maxl : N) : N := if maxl <? 1 then 1 else maxl.
+
+(* all strings of the value (texts, keys, link targets, style strings, css keys and values) are legal XML characters *)
+Definition legal_sty (st : sty) : bool :=
+  match st with
+  | SNone | SCloErr => true
+  | SStr s => legal s
+  | SMap l => forallb (fun kv => legal (fst kv) && legal (snd kv)) l
+  end.
+
+Fixpoint legal_h (v : hval) : bool :=
+  match v with
+  | HS s | HFloat s => legal s
+  | HL l => forallb legal_h l
+  | HM l => forallb (fun kv => legal (fst kv) && legal_h (snd kv)) l
+  | HFmt _ _ st v => legal_sty st && legal_h v
+  | HLnk l v => legal l && legal_h v
+  end.
+
+(* no plainList style anywhere: plainList writes list elements side by side, i.e. mixed content, into which
+   PrettyPrint puts its line breaks and indentation *)
+Fixpoint pfree (v : hval) : bool :=
+  match v with
+  | HS _ | HFloat _ => true
+  | HL l => forallb pfree l
+  | HM l => forallb (fun kv => pfree (snd kv)) l
+  | HFmt _ _ st v => negb (has_plain st) && pfree v
+  | HLnk _ v => pfree v
+  end.
+
+(* when rendering must fail: toHtml(v, st) reaches, within the maxListSize cut-offs, a value whose style is a
+   failing closure.  [fails v st]: toHtml(v, st);  [fails_td d]: toTD(d). *)
+Section Fails.
+Variable maxl : N.
+
+Inductive fails : hval -> sty -> Prop :=
+| F_here : forall v, fails v SCloErr
+| F_fmt : forall c cs f inner st, fails inner f -> fails (HFmt c cs f inner) st
+| F_lnk : forall l inner st, fails inner st -> fails (HLnk l inner) st
+| F_map : forall l k e st, In (k, e) l -> fails_td e -> fails (HM l) st
+| F_plain : forall items e st, has_plain st = true -> In e items -> fails e SNone -> fails (HL items) st
+| F_list : forall items first i e st, has_plain st = false ->
+    nth_error items 0 = Some first -> is_HL first = false ->
+    nth_error items i = Some e -> N.of_nat i < maxl -> fails_td e -> fails (HL items) st
+| F_row : forall items first r x st, has_plain st = false ->
+    nth_error items 0 = Some first -> is_HL first = true ->
+    nth_error items r = Some x -> N.of_nat r < maxl -> is_HL x = false -> fails_td x -> fails (HL items) st
+| F_cell : forall items first r cols c y st, has_plain st = false ->
+    nth_error items 0 = Some first -> is_HL first = true ->
+    nth_error items r = Some (HL cols) -> N.of_nat r < maxl ->
+    nth_error cols c = Some y -> N.of_nat c < maxl -> fails_td y -> fails (HL items) st
+with fails_td : hval -> Prop :=
+| T_list : forall cs f inner, is_HL inner = true -> fails inner f -> fails_td (HFmt false cs f inner)
+| T_other : forall cell cs f inner, is_HL inner && negb cell = false -> fails inner SNone ->
+    fails_td (HFmt cell cs f inner)
+| T_plain : forall d, (match d with HFmt _ _ _ _ => false | _ => true end) = true -> fails d SNone -> fails_td d.
+
+End Fails.
